@@ -42,6 +42,25 @@ func fanGraph(r *common.Rand) *dag.Graph {
 		}
 		return nil
 	}
+	// embedded descriptors (index entries, subject fields) may carry their own annotations /
+	// artifactType, independent of the manifest they point to (image-spec: BuildKit attestation
+	// entries carry vnd.docker.reference.type); a reopened OCI layout indexes nested nodes with them
+	entry := func(i int) ocispec.Descriptor {
+		d := descs[i]
+		if !r.Chance(2, 5) {
+			return d
+		}
+		if r.Chance(2, 3) {
+			d.Annotations = map[string]string{"verif.key": common.Pick(r, []string{"alpha", "beta", "gamma", "entry"})}
+			if r.Chance(1, 3) {
+				d.Annotations = map[string]string{"vnd.docker.reference.type": "attestation-manifest"}
+			}
+		}
+		if r.Chance(1, 2) {
+			d.ArtifactType = common.Pick(r, []string{"application/vnd.verif.sbom", "application/vnd.verif.entry", "application/vnd.verif.sig"})
+		}
+		return d
+	}
 	image := func(subject int) int {
 		i := len(es)
 		cfgMT := common.Pick(r, []string{ocispec.MediaTypeImageConfig, "application/vnd.verif.config.v1+json", "application/vnd.verif.sig"})
@@ -50,7 +69,7 @@ func fanGraph(r *common.Rand) *dag.Graph {
 		m.SchemaVersion = 2
 		e := dag.Encoded{Kind: dag.KImage, MediaType: m.MediaType, Subject: subject}
 		if subject >= 0 {
-			d := descs[subject]
+			d := entry(subject)
 			m.Subject = &d
 			e.Succ = append(e.Succ, subject)
 		}
@@ -86,14 +105,14 @@ func fanGraph(r *common.Rand) *dag.Graph {
 		ix.SchemaVersion = 2
 		e := dag.Encoded{Kind: dag.KIndex, MediaType: ix.MediaType, Subject: subject}
 		if subject >= 0 {
-			d := descs[subject]
+			d := entry(subject)
 			ix.Subject = &d
 			e.Succ = append(e.Succ, subject)
 		}
 		k := 1 + r.Intn(2)
 		for j := 0; j < k; j++ {
 			m := common.Pick(r, manifests)
-			ix.Manifests = append(ix.Manifests, descs[m])
+			ix.Manifests = append(ix.Manifests, entry(m))
 			e.Succ = append(e.Succ, m)
 		}
 		if r.Chance(1, 3) {
